@@ -9,7 +9,7 @@ prop, src, name = sys.argv[1], sys.argv[2].rstrip("/"), sys.argv[3]
 ENV = dict(os.environ, GOFLAGS="-mod=mod", GOPROXY="off", GOSUMDB="off", GOTOOLCHAIN="local")
 meta = json.load(open(os.path.join(src, "meta.json")))
 how = meta.get("how_to_run", "")
-seed_wt = re.search(r"/tmp/seed/C\d+(?![\w.])", how)
+seed_wt = re.search(r"/tmp/seed\d*/C\d+(?![\w.])", how)
 seed_wt = seed_wt.group(0) if seed_wt else "/tmp/seed/" + prop
 
 def sh(cmd, cwd=None, timeout=1800):
@@ -23,6 +23,7 @@ def demo_cmds(wt):
     cps = re.findall(r"cp\s+\S+\s+\S+", h)
     tests = re.findall(r"(?:timeout\s+\d+\s+)?go\s+(?:test|run)\s+[^;&#\n]*", h)
     extra = re.findall(r"(?:(?:bash|sh)\s+)?/\S+\.sh[^;&#\n]*", h)
+    extra = [re.sub(r"\s{2,}\(.*$", "", e) for e in extra]   # trailing prose in parentheses
     extra = [e for e in extra if "<" not in e]   # prose such as `cli_check.sh <rare-binary> 1` is not a command
     tests = [re.sub(r"\s\((?:FAILS|PASSES|fails|passes|with|without)[^)]*\).*$", "", t) for t in tests]   # trailing prose
     tests = [t for t in tests if "./" in t or " -run" in t]                                           # "go test command (PASSES)" is prose
